@@ -137,8 +137,13 @@ def v3_base_all():
 
 
 def v3_temporal_spellings():
-    """All 100 fully explicit temporal spellings (X included)."""
-    return parts(T.V3_TEMPORAL, T.V3)
+    """All 100 fully explicit temporal spellings (X included), the bare base vector, and every
+    single temporal metric alone."""
+    out = parts(T.V3_TEMPORAL, T.V3) + [("", {})]
+    for m in T.V3_TEMPORAL:
+        for v in T.V3[m]:
+            out.append(("%s:%s" % (m, v), {m: v}))
+    return out
 
 
 def v3_temporal_effective():
